@@ -144,6 +144,12 @@ def all_abort_cases():
                             'sched': []})
         for oc in S.CONNECT_OUTCOMES:
             out.append({'kind': 'real', 'conns': [_conn(role, 0, connect=[oc], adv=1, kind='connect')], 'sched': []})
+        for v in S.backlog_variants(role, 0):
+            out.append({'kind': 'real', 'conns': [v], 'sched': []})
+            if v.get('noread'):
+                out.append({'kind': 'real', 'conns': [v], 'sched': [], 'tcp': 1})
+                # (no idle-reaping variant: a work with output still queued is never `inactive`)
+                out.append({'kind': 'real', 'conns': [v], 'sched': [], 'final': 'reset'})
         for final in ('idle', 'reset'):
             for cut in range(len(good)):
                 out.append({'kind': 'real', 'conns': [_conn(role, 0, [list(s) for s in good[:cut]], adv=1, kind='abort')],
@@ -162,9 +168,10 @@ def corpus():
 def generate(rng, tier):
     big = tier == 'thorough'
     for c in all_abort_cases():
-        if big or rng.random() < 0.5:
+        backlog = c['conns'][0].get('kind') == 'backlog'
+        if big or backlog or rng.random() < 0.5:
             yield c
-        if big:
+        if big and not backlog:
             yield dict(c, tcp=1)
     for _ in range(300 if not big else 4000):
         yield S.gen_hist(rng, nrounds=rng.choice([4, 8, 8, 14]), adversarial=rng.choice([0.1, 0.3, 0.6]))
